@@ -200,12 +200,21 @@ func c04Files(c *Ctx) {
 			var want []item
 			var ms []func() ([]byte, error)
 			var ws []func(io.Writer) error
+			dup := r.IntN(4) == 0 // identical lines in a row (duplicates are everywhere in real interval files)
 			for j := 0; j < nr; j++ {
 				b := genBED(r, nf)
-				ms = append(ms, b.MarshalText)
-				ws = append(ws, b.Write)
-				want = append(want, item{Key: bedKey(bedExpected(b))})
+				reps := 1
+				if dup && r.IntN(3) == 0 {
+					reps = 2 + r.IntN(3)
+					k.Count("repeated_lines", int64(reps-1))
+				}
+				for ; reps > 0; reps-- {
+					ms = append(ms, b.MarshalText)
+					ws = append(ws, b.Write)
+					want = append(want, item{Key: bedKey(bedExpected(b))})
+				}
 			}
+			nr = len(want)
 			// all records marshalled first (results held), then written and compared
 			text.Write(heldMarshalCheck(k, ms, ws))
 			k.Input("N", nf)
